@@ -32,11 +32,25 @@ ASSUMPTIONS = ['the reference outcome of a client alone is computed by the harne
 
 def cases(tier, seed):
     rnd = random.Random('c20/%d' % seed)
-    n = 250 if tier == 'quick' else 20000
+    n = 180 if tier == 'quick' else 20000
     for i in range(n):
         yield dict(n=rnd.choice([2, 2, 3, 4, 6, 8]), shared=rnd.random() < 0.5,
                    policy=rnd.choice(['uniform', 'rr', 'starve']), fine=rnd.random() < 0.5,
                    disturb=rnd.choice([0, 0, 1, 2]), seed=seed * 100003 + i)
+
+
+_base_cases = cases
+
+
+def cases(tier, seed):      # noqa: F811
+    for c in _base_cases(tier, seed):
+        yield c
+    # one shared requesting entity that is reconfigured (add_scu) several times while many short
+    # associations are requested from it; pre-emption concentrated in the configuration code
+    rnd = random.Random('c20h/%d' % seed)
+    for i in range(80 if tier == 'quick' else 6000):
+        yield dict(n=rnd.choice([3, 4, 6]), shared=True, policy='uniform', fine=True, hot=True,
+                   disturb=0, seed=seed * 100069 + i)
 
 
 def run_case(case):
@@ -54,7 +68,12 @@ def run_case(case):
             detail, case, world.handler_errors[:1])})
     try:
         if case['fine']:
-            pre = preempt.Preempter(sim, prob=0.2)
+            if case.get('hot'):
+                pre = preempt.Preempter(sim, prob=0.5, funcs={
+                    'copy_context_def_list', 'update_context_def_list', '_build_context_def_list',
+                    'add_scu', '_new_msg_id'})
+            else:
+                pre = preempt.Preempter(sim, prob=0.2)
             pre.install()
         stored = []        # (instance uid, data bytes) seen by the server handler
         queries = []
@@ -182,6 +201,15 @@ def run_case(case):
                         ae.add_scu(sopclass.verification_scu)
                         ae.add_scu(sopclass.storage_scu, plan['order'])
                     ae.add_scu(sopclass.storage_commitment_scu)
+                if shared is not None:
+                    # a few short associations first, so that requests on the shared entity
+                    # keep coming while it is being reconfigured
+                    for r_ in range(rnd.randint(1, 3) if not case.get('hot') else 8):
+                        if case.get('hot'):
+                            # start together with the reconfiguration of this round
+                            sim.wait(lambda: gate['n'] > r_, 60.0, 'gate')
+                        with ae.request_association(remote) as a0:
+                            sim.sleep(rnd.choice([0.0, 0.02, 0.1]))
                 with ae.request_association(remote) as assoc:
                     res['neg'] = assoc.max_pdu_length
                     res['want_neg'] = min(ae.max_pdu_length, 16384)
@@ -240,6 +268,38 @@ def run_case(case):
                 res['tb'] = traceback.format_exc()
         for c in range(n):
             world.spawn(lambda c=c: client(c), 'client%d' % c)
+        cfg = {}
+        gate = {'n': 0}
+        if shared is not None:
+            # the shared entity is reconfigured while its associations are being requested; an
+            # association requested after add_scu() has returned must propose the new classes
+            def configurator():
+                sim.sleep(rnd.choice([0.0, 0.01, 0.03, 0.05, 0.1, 0.2, 0.4]))
+
+                def extra(asce, ctx, *a):
+                    return None
+                extra.sop_classes = ['1.2.826.0.1.20.77.1', '1.2.826.0.1.20.77.2']
+                shared.add_scu(extra)
+                if case.get('hot'):
+                    sim.sleep(0.3)
+                    for j in range(8):
+                        # open the gate: every client requests its next association now, while
+                        # this thread is adding a service - all runnable at the same instant
+                        gate['n'] = j + 1
+
+                        def more(asce, ctx, *a):
+                            return None
+                        more.sop_classes = ['1.2.826.0.1.20.78.%d' % j]
+                        shared.add_scu(more)
+                        sim.sleep(0.5)
+                cfg['configured'] = True
+                try:
+                    with shared.request_association(remote) as assoc:
+                        cfg['proposed'] = sorted(str(x.sop_class)
+                                                 for x in assoc.context_def_list.values())
+                except Exception as e:  # pylint: disable=broad-except
+                    cfg['exc'] = e
+            world.spawn(configurator, 'configurator')
         if case['policy'] != 'uniform':
             orig_choose = sim.choose
             state = {'last': -1}
@@ -321,6 +381,16 @@ def run_case(case):
                       'client %d asked for transaction %s with %r; reports under that uid: %r; '
                       'all reports %r' % (c, tuid, insts, mine, reports[:6]))
                     break
+        if cfg.get('configured'):
+            if 'proposed' in cfg:
+                miss = [u for u in ('1.2.826.0.1.20.77.1', '1.2.826.0.1.20.77.2')
+                        if u not in cfg['proposed']]
+                if miss:
+                    v('association-after-reconfiguration-misses-classes',
+                      'requested after add_scu() returned, proposes %d classes, missing %r' % (
+                          len(cfg['proposed']), miss))
+            elif 'exc' in cfg:
+                v('association-after-reconfiguration-failed', repr(cfg['exc']))
         extra = [b for b in stored if not any(b in results[c]['sent'] for c in results)]
         if extra:
             v('handler-saw-data-nobody-sent', '%d data sets' % len(extra))
